@@ -1,2 +1,224 @@
-(** C04 — placeholder while the proofs are being written. *)
-From Vivid Require Import Future.FutModel.
+(** C04 - every Ask completes exactly once, with its own reply, timeout, or death.
+
+    Model: Future/FutModel.v - a micro-step machine of ONE Ask as the code is in /repo now: Context.ask
+    (NewFuture - which arms the timer -, appendFuture, the Closed() re-check + conditional removeFuture, the send
+    of the request), future.Future (close = CAS(closed); assign err/message; close(done) + timer.Stop; closer() =
+    removeFuture; Lock(mu), take forwarders, Unlock; one Tell per forwarder - PipeTo = Lock(mu); Load(closed);
+    closed: Unlock, wait done, read result, Tell each / open: append + Unique, Unlock - Result/Wait) and the
+    future table of System (path -> identity finite map, findMailbox, removeFuturesByAgentPath).
+    One step = what one goroutine does between two scheduling points of the instrumented real code.
+    Threads: the asker ([ask]), the timer goroutine, and ANY population ([prog]) of repliers (to the future's own
+    path or to any other path), Close(err) callers, asker death, PipeTo callers, Result/Wait callers, and other
+    actors/futures registering and unregistering other paths.  [reachable s] / [reach timeout progs s] = s is the
+    state after SOME schedule (list of [Run i] / [Tick]) of SOME population, so every theorem holds for all
+    numbers of concurrent users, all interleavings of reply / timeout / death / Close / PipeTo, all timeouts.
+    Other Asks of the same system interact with this one only through the registry under other paths (M7: the
+    agent path contains a fresh uuid - side condition [prog_ok]); they are the [PForeignReg]/[PForeignUnreg]/
+    [PReply p] (p <> fpath) threads.
+    Time: [now] advanced by [Tick]; the timer's fire step is enabled only when now >= armed_at + timeout (M6).
+    The model is tied to the real code by lock-step replay (bin/check C04).
+    Statements only; proofs in Future/FutInv*.v, Future/FutProofs.v, Future/FutFwd.v; notions in Future/FutSpec.v. *)
+From Coq Require Import List NArith Bool.
+From Vivid Require Import Future.FutModel Future.FutSpec Future.FutInvDef Future.FutInv Future.FutProofs Future.FutFwd.
+Import ListNotations.
+Local Open Scope N_scope.
+
+(** ============================ (1) C04_one_shot ============================ *)
+
+(** at most one thread ever passes the CAS; [closed] is set exactly when somebody did *)
+Theorem C04_one_shot_cas s :
+  reachable s -> (length (winners s) <= 1)%nat /\ (closed s = true <-> winners s <> []).
+Proof. exact (fun H => one_winner s (reachable_inv s H)). Qed.
+
+(** only that thread is ever inside the rest of close (assign, close(done), closer, take forwarders, tell) *)
+Theorem C04_one_shot_past_cas s i p :
+  reachable s -> nth_error (thr s) i = Some p -> close_pc p = true -> winners s = [i].
+Proof. exact (fun H => past_cas_is_winner s i p (reachable_inv s H)). Qed.
+
+(** err/message are written at most once, only by the thread that won the CAS, and while done is still open *)
+Theorem C04_one_shot_writes s :
+  reachable s ->
+  (length (wlog s) <= 1)%nat /\ forall i d, In (i, d) (wlog s) -> winners s = [i] /\ d = false.
+Proof. exact (fun H => writes_once s (reachable_inv s H)). Qed.
+
+(** the write itself: before it the result is (nil, nil) and done is open; it stores exactly the value the
+    winning close was called with *)
+Theorem C04_one_shot_write_step s i v s' :
+  reachable s -> nth_error (thr s) i = Some (CAssign v) -> step i s = Some s' ->
+  done s = false /\ closed s = true /\ res_of s = (None, None) /\ res_of s' = vpair v /\ final s = Some v.
+Proof. exact (fun H => write_before_done i s s' v (reachable_inv s H)). Qed.
+
+(** once done is closed the result is the value of the winning close and never changes again, whatever runs *)
+Theorem C04_one_shot_result s :
+  reachable s -> done s = true -> exists v, final s = Some v /\ res_of s = vpair v /\ closed s = true.
+Proof. exact (fun H => done_final s (reachable_inv s H)). Qed.
+Theorem C04_one_shot_stable s sched :
+  reachable s -> done s = true -> res_of (run sched s) = res_of s /\ done (run sched s) = true.
+Proof. exact (fun H => result_stable_run sched s (reachable_inv s H)). Qed.
+
+(** Result / Wait can only return after done is closed, and every value they ever returned is the final one *)
+Theorem C04_one_shot_reader_step s i full s' :
+  nth_error (thr s) i = Some (WRecv full) -> step i s = Some s' -> done s = true.
+Proof. exact (waiter_needs_done i s s' full). Qed.
+Theorem C04_one_shot_readers s j full r :
+  reachable s -> In (j, full, r) (rets s) -> done s = true /\ r = (if full then msg s else None, err s).
+Proof. exact (fun H => i_rets s (reachable_inv s H) j full r). Qed.
+
+(** ============================ (2) C04_completes ============================ *)
+
+(** when nothing can move any more (however far the clock advances): the future is completed whenever a
+    reply / Close / death / timeout reached it (somebody executed the CAS) or a timer was armed *)
+Theorem C04_completes s :
+  reachable s -> terminal s -> (attempts s <> [] \/ armed s <> None) -> done s = true.
+Proof. exact (fun H => completes s (reachable_inv s H)). Qed.
+
+(** ... and nobody is blocked except Result/Wait callers of a future that nothing has completed (no reply,
+    Close or death reached it and it has no timeout): no deadlock on mu, no PipeTo stuck waiting for done *)
+Theorem C04_completes_only_waiters_block s :
+  reachable s -> terminal s ->
+  forall i p, nth_error (thr s) i = Some p ->
+    p = Done \/
+    (exists full, p = WRecv full) /\ done s = false /\ closed s = false /\ attempts s = [] /\ armed s = None.
+Proof. exact (fun H => no_deadlock s (reachable_inv s H)). Qed.
+
+(** the timer callback never runs before the deadline *)
+Theorem C04_timeout_not_early s t :
+  reachable s -> fired s = Some t -> exists t0, armed s = Some t0 /\ t0 + tmo s <= t.
+Proof. exact (fun H => i_fired s (reachable_inv s H) t). Qed.
+
+(** the completing value is a reply addressed to the future's own path, the holder's Close(err), the
+    actor-dead error of the asker's death, or the timeout error of the timer callback - nothing else *)
+Theorem C04_completes_origin timeout progs s v :
+  forallb prog_ok progs = true -> reach timeout progs s -> final s = Some v -> origin progs s v.
+Proof. exact (fun Hok Hr => o_final progs s (reach_inv2 progs timeout s Hok Hr) v). Qed.
+
+(** ============================ (3) C04_no_registration_left ============================ *)
+
+(** a completed future is registered only transiently: while ask is between appendFuture and its Closed()
+    re-check, or while the completing thread has not yet run closer() *)
+Theorem C04_registration_window s :
+  reachable s -> rlookup fpath (reg s) <> None -> nth_error (thr s) 0 = Some ACheck \/ closer_ran s = false.
+Proof. exact (fun H => i_reg s (reachable_inv s H)). Qed.
+
+(** in a terminal state a completed future has no registry entry *)
+Theorem C04_no_registration_left s :
+  reachable s -> terminal s -> done s = true -> rlookup fpath (reg s) = None.
+Proof. exact (fun H => no_registration_left s (reachable_inv s H)). Qed.
+
+(** ============================ (4) C04_forwarders_once ============================ *)
+
+(** every forwarder named by any PipeTo call (distinct forwarders) has received exactly one PipeResult, and
+    it carries the final (message, error) *)
+Theorem C04_forwarders_once timeout progs s :
+  forallb prog_ok progs = true -> NoDup (all_fwds progs) -> reach timeout progs s ->
+  terminal s -> done s = true ->
+  forall x, In x (all_fwds progs) -> told x s = [res_of s].
+Proof. exact (forwarders_once timeout progs s). Qed.
+
+(** nobody else is ever told a PipeResult *)
+Theorem C04_forwarders_only_named timeout progs s x :
+  NoDup (all_fwds progs) -> reach timeout progs s -> told x s <> [] -> In x (all_fwds progs).
+Proof. exact (told_only_named timeout progs s x). Qed.
+
+(** at any moment, every PipeResult already told carries the value of the winning close (= the final result) *)
+Theorem C04_forwarded_value s x r :
+  reachable s -> In (x, r) (tells s) -> exists v, final s = Some v /\ r = vpair v.
+Proof. exact (fun H => i_tells s (reachable_inv s H) x r). Qed.
+
+(** ============================ (5) C04_reply_routing ============================ *)
+
+(** the registry maps the future's path to this future and no other path to it (M7 = [prog_ok]) *)
+Theorem C04_reply_routing_registry s q id :
+  reachable s -> rlookup q (reg s) = Some id -> (q = fpath <-> id = fid).
+Proof. exact (fun H => i_route s (reachable_inv s H) q id). Qed.
+
+(** every reply ever sent: one addressed to path q was delivered to what was registered under q - to this
+    future only if q is its path, and a reply to its path never to anybody else (at worst to dead letters) *)
+Theorem C04_reply_routing_log timeout progs s q v d id :
+  forallb prog_ok progs = true -> reach timeout progs s ->
+  In (q, v, d) (routed s) -> d = Some id -> (q = fpath <-> id = fid).
+Proof. exact (fun Hok Hr => o_routed progs s (reach_inv2 progs timeout s Hok Hr) q v d id). Qed.
+
+(** the message a future holds was replied to its own path *)
+Theorem C04_reply_routing_value timeout progs s m :
+  forallb prog_ok progs = true -> reach timeout progs s -> msg s = Some m -> In (PReply fpath (VMsg m)) progs.
+Proof. exact (reply_value_addressed timeout progs s m). Qed.
+
+(** ============================ non-vacuity ============================ *)
+
+Definition R (l : list nat) : list act := map Run l.
+
+(** Ask with timeout 5; a reply 7, PipeTo [1] before and PipeTo [2] during the completion, Result, asker death;
+    the timer is stopped: terminal, completed with (7, nil), both forwarders told exactly (7, nil), unregistered *)
+Definition ex1_progs : list prog := [PReply 0 (VMsg 7); PPipe [1]; PPipe [2]; PWait true; PDeath].
+Definition ex1_sched : list act :=
+  R [0;0;0;0; 2;2;2;2; 1;1;1;1; 3;3;3;3; 1;1; 3; 1;1;1; 3; 4;4;4; 5;5; 6]%nat ++ [Tick;Tick;Tick;Tick;Tick] ++ R [6]%nat.
+Definition ex1 : st := run ex1_sched (init 5 ex1_progs).
+Example C04_ex_completed_by_reply :
+  reach 5 ex1_progs ex1 /\ forallb prog_ok ex1_progs = true /\ NoDup (all_fwds ex1_progs) /\ terminal ex1 /\
+  done ex1 = true /\ res_of ex1 = (Some 7, None) /\ told 1 ex1 = [(Some 7, None)] /\ told 2 ex1 = [(Some 7, None)] /\
+  rets ex1 = [(4%nat, true, (Some 7, None))] /\ reg ex1 = [] /\ attempts ex1 = [1%nat] /\ winners ex1 = [1%nat].
+Proof.
+  split; [exists ex1_sched; reflexivity|]. split; [reflexivity|].
+  split; [apply (NoDup_count_occ' N.eq_dec); intros x [<-|[<-|[]]]; reflexivity|].
+  split; [apply quiet_terminal; vm_compute; reflexivity|]. vm_compute. repeat split.
+Qed.
+
+(** Ask with timeout 1 whose timer fires (at time 1 >= 0 + 1) BEFORE ask registers the future: the timeout
+    completes it, ask's re-check removes the late registration, Wait returns the timeout error *)
+Definition ex2_sched : list act := R [0;0;2]%nat ++ [Tick] ++ R [2;2;2;2;2;2; 0;0; 1;1;1]%nat.
+Definition ex2 : st := run ex2_sched (init 1 [PWait false]).
+Example C04_ex_timeout_before_registration :
+  reachable ex2 /\ terminal ex2 /\ done ex2 = true /\ res_of ex2 = (None, Some E_TIMEOUT) /\
+  fired ex2 = Some 1 /\ armed ex2 = Some 0 /\ tmo ex2 = 1 /\ reg ex2 = [] /\ rets ex2 = [(1%nat, false, (None, Some E_TIMEOUT))].
+Proof.
+  split; [exists 1, [PWait false]; split; [reflexivity|exists ex2_sched; reflexivity]|].
+  split; [apply quiet_terminal; vm_compute; reflexivity|]. vm_compute. repeat split.
+Qed.
+
+(** no timeout, no reply to the future: Result blocks for ever (terminal, not completed); a reply addressed to
+    another path (3) reaches what is registered there (5), not the future *)
+Definition ex3_progs : list prog := [PWait true; PReply 3 (VMsg 9); PForeignReg 3 5].
+Definition ex3_sched : list act := R [0;0;0;0; 1;1; 3;3; 2;2]%nat.
+Definition ex3 : st := run ex3_sched (init 0 ex3_progs).
+Example C04_ex_blocked_waiter :
+  reach 0 ex3_progs ex3 /\ forallb prog_ok ex3_progs = true /\ terminal ex3 /\ done ex3 = false /\
+  nth_error (thr ex3) 1 = Some (WRecv true) /\ routed ex3 = [(3, VMsg 9, Some 5)] /\ rlookup fpath (reg ex3) = Some fid.
+Proof.
+  split; [exists ex3_sched; reflexivity|]. split; [reflexivity|].
+  split; [apply quiet_terminal; vm_compute; reflexivity|]. vm_compute. repeat split.
+Qed.
+
+(** the window between the CAS and the assignment: closed is set, the result still (nil, nil); the replier is
+    at its assignment and a PipeTo that loaded closed = true is parked on done (it will forward (7, nil)) *)
+Definition ex4_sched : list act := R [0;0;0;0; 1;1;1;1; 2;2;2;2]%nat.
+Definition ex4 : st := run ex4_sched (init 0 [PReply 0 (VMsg 7); PPipe [1]]).
+Example C04_ex_window :
+  reachable ex4 /\ closed ex4 = true /\ done ex4 = false /\ res_of ex4 = (None, None) /\
+  nth_error (thr ex4) 1 = Some (CAssign (VMsg 7)) /\ nth_error (thr ex4) 2 = Some (PWaitDone [1]) /\
+  told 1 (run (R [1;1;2;2;1;1]%nat) ex4) = [(Some 7, None)].
+Proof.
+  split; [exists 0, [PReply 0 (VMsg 7); PPipe [1]]; split; [reflexivity|exists ex4_sched; reflexivity]|].
+  vm_compute. repeat split.
+Qed.
+
+Print Assumptions C04_one_shot_cas.
+Print Assumptions C04_one_shot_past_cas.
+Print Assumptions C04_one_shot_writes.
+Print Assumptions C04_one_shot_write_step.
+Print Assumptions C04_one_shot_result.
+Print Assumptions C04_one_shot_stable.
+Print Assumptions C04_one_shot_reader_step.
+Print Assumptions C04_one_shot_readers.
+Print Assumptions C04_completes.
+Print Assumptions C04_completes_only_waiters_block.
+Print Assumptions C04_timeout_not_early.
+Print Assumptions C04_completes_origin.
+Print Assumptions C04_registration_window.
+Print Assumptions C04_no_registration_left.
+Print Assumptions C04_forwarders_once.
+Print Assumptions C04_forwarders_only_named.
+Print Assumptions C04_forwarded_value.
+Print Assumptions C04_reply_routing_registry.
+Print Assumptions C04_reply_routing_log.
+Print Assumptions C04_reply_routing_value.
